@@ -10,6 +10,8 @@ From Coq Require Import ZArith QArith List Bool.
 From DS Require Import Base.ZMat Base.SGDefs Model.C05_QBase Model.C06_UCert.
 From DS Require Import Proofs.C05_RunSpec Proofs.C05_QLemmas Proofs.C06_USound Proofs.C05_Example.
 From DS Require Import Model.C06_Query Gen.C06_QueryGuards Model.C06_QueryMethods Proofs.C06_QuerySound Proofs.C06_QueryGuards.
+From DS Require Import Proofs.C05_DimensionInst.
+From DS Require Import Model.C05_SymTrans Proofs.C05_SymTransSound.
 Import ListNotations.
 Open Scope Q_scope.
 
@@ -99,3 +101,29 @@ Theorem C06_query_example :
   let sites := [Q3 0 0 0; Q3 (1 # 2) (1 # 2) 0] in let q := Q3 (15003 # 10000) (-4998 # 10000) (1 # 10000) in
   site_query (1 # 1000) sites q = Some 1%nat /\ site_query (1 # 100000) sites q = None /\ eq_index sites q = Some 1%nat.
 Proof. exact site_query_example. Qed.
+
+(* ---- the number of tensor parameters is THE dimension of the invariant space: any independent family of allowed
+   tensors has at most len(Uspace) members, any basis of the allowed tensors exactly that many ---- *)
+Theorem C06_parameter_count_is_the_dimension : forall G c, u_cert_ok G c = true ->
+  let S := stab G (uc_x c) in
+  forall M : list s6, (forall m, In m M -> Inv S m) ->
+    (forall a, List.length a = List.length M -> s6eq (lin6 M a) s6zero -> Forall (fun x => x == 0) a) ->
+    (List.length M <= List.length (uc_B c))%nat /\
+    ((forall U, Inv S U -> exists a, List.length a = List.length M /\ s6eq U (lin6 M a)) -> List.length M = List.length (uc_B c)).
+Proof. exact u_dimension. Qed.
+Print Assumptions C06_parameter_count_is_the_dimension.
+
+(* ---- custom symbols, UFormulas(Usymbols):  re.sub(r"\bU\d\d\d+", ...)
+   (scanner model Model/C05_SymTrans.v, compared with the real method on every formula of the long listings).
+   A formula that consists of text without start letters and of parameter symbols (start letter + at least 3 digits, preceded
+   by a non-word character and followed by a non-digit) is translated by replacing exactly its parameter symbols, for ANY
+   user dictionary - in particular when one standard symbol is a prefix of another (x1 / x10). ---- *)
+Theorem C06_custom_symbol_translation : forall tr l, wf is_U 3 false l ->
+  translate_U tr (render l) = render (map (rename1 tr) l).
+Proof. exact (translate_render is_U 3). Qed.
+Print Assumptions C06_custom_symbol_translation.
+
+Theorem C06_custom_symbol_example :
+  wf is_xyz 1 false ex_chunks /\ render ex_chunks = ex_formula /\ translate_xyz ex_dict ex_formula = ex_translated.
+(* ex_formula = "+2*x10 -x1 +0.5", dictionary x1 -> sab, x10 -> sak, ex_translated = "+2*sak -sab +0.5" *)
+Proof. exact translate_example. Qed.
